@@ -124,3 +124,15 @@ impl MemoryMappedDynamicTickArray {
         self.tick_bitmap = tick_bitmap.to_le_bytes();
     }
 }
+
+// verification hook (feature `verif` only)
+#[cfg(feature = "verif")]
+impl MemoryMappedDynamicTickArray {
+    pub fn verif_byte_offset(&self, tick_offset: usize) -> Result<usize> {
+        self.byte_offset(tick_offset)
+    }
+
+    pub fn verif_tick_bitmap(&self) -> u128 {
+        self.tick_bitmap()
+    }
+}
